@@ -11,6 +11,9 @@ from ..tlc import MachineryError, cleanup, run_tlc, workdir
 from . import c04
 
 
+_SCHEMA_N = [0]
+
+
 def check_hugr(ctx: Ctx, focus: str, h, case, sig0: dict, expected_doc=None, foreign_doc=None, exact_order: bool = False) -> bool:
     """All document-level checks on one real Hugr. focus in {'C02','C03','C05'} selects what is reported.
     Returns True if a violation was recorded."""
@@ -56,7 +59,9 @@ def check_hugr(ctx: Ctx, focus: str, h, case, sig0: dict, expected_doc=None, for
         f = _as_foreign(d1, expected_doc, foreign_doc)
         if f is None:
             raise MachineryError("cannot align foreign document with the implementation's document")
-        errs = S.schema_errors(f)
+        _SCHEMA_N[0] += 1
+        sanity = _SCHEMA_N[0] <= 40 or _SCHEMA_N[0] % 25 == 0      # (machinery sanity check of the harness-written documents; jsonschema is slow)
+        errs = S.schema_errors(f) if sanity else None
         if errs:
             raise MachineryError(f"foreign document is not schema-valid: {errs}")
         try:
@@ -78,7 +83,7 @@ def check_hugr(ctx: Ctx, focus: str, h, case, sig0: dict, expected_doc=None, for
                 if variant == "null":
                     g["edges"] = [[[e[0][0], None if e[0][1] == foreign_doc[e[0][0]][0] else e[0][1]],
                                    [e[1][0], None if e[1][1] == foreign_doc[e[1][0]][1] else e[1][1]]] for e in expected_doc["edges"]]
-                errs = S.schema_errors(g)
+                errs = S.schema_errors(g) if sanity else None
                 if errs:
                     raise MachineryError(f"model document is not schema-valid: {errs}")
                 try:
